@@ -128,7 +128,9 @@ func c16Check(c c16Case) [][2]string {
 				if srcFails() {
 					return nil, fmt.Errorf("verif: netlink dump interrupted")
 				}
-				return []system.IP{{Address: mustPrefix("2001:db8::1/64")}}, nil
+				// (the kernel has deprecated the address: that is a property of the address,
+				// not of the stanza - a non-deprecated stanza keeps its constants)
+				return []system.IP{{Address: mustPrefix("2001:db8::1/64"), Deprecated: true}}, nil
 			}
 			plug = p
 		case *plugin.Route:
